@@ -69,6 +69,17 @@ fn queries(tier: Tier) -> Vec<String> {
             }
         }
     }
+    // failed function calls, nested d deep or repeated n times, in front of results that call
+    // functions themselves (what a failed call leaves behind must not reach the next result)
+    for d in [1usize, 8, 31, 32, 33, 63, 64, 65, 100, 200] {
+        let nest = format!("{}1 / 0{}", "floor(".repeat(d), ")".repeat(d));
+        v.push(format!("({nest}) (round(2.5)) (floor(1.5 m))"));
+        v.push(format!("({nest}) ({nest}) (ceil(round(2.5)))"));
+    }
+    for n in [2usize, 10, 63, 64, 65, 130] {
+        v.push(format!("{}(round(2.5)) (floor(ceil(1.5 m)))", "(floor(1 / 0)) ".repeat(n)));
+        v.push(format!("{}(round(2.5))", "(floor(ceil(round(1 / 0)))) ".repeat(n)));
+    }
     // exponents of two and three digits, numerator and denominator (superscripts are printed digit by digit)
     for u in ["m", "s", "K", "btu", "km"] {
         for n in ["10", "12", "21", "123", "100"] {
